@@ -387,6 +387,17 @@ class CompilerPassGenerateCode(CompilerPass):
         data = node._ndata
         if node.value is not None:
             d = self.compile_node(node.value)
+
+        if node != func_node.body[-1]:
+            # leaving the bodies of loops over a list drops the return addresses they saved
+            loop_node = node.parent
+            while loop_node is not func_node:
+                if loop_node._ndata.saves_ra:
+                    ra = IC10Register("ra", code_expr="ra")
+                    data.add(IC10("pop", [], ra))
+                loop_node = loop_node.parent
+
+        if node.value is not None:
             if do_inline:
                 # todo: check if there are multiple return statements
                 # if not, we can avoid this move instruction
@@ -968,12 +979,22 @@ class CompilerPassGenerateCode(CompilerPass):
         )
         # the body is a subroutine reached by 'jal': a call inside it overwrites ra, so ra is
         # kept on the stack while the body runs ('break' leaves through a label that drops it)
+        # (a nested loop over a list does the same with its own 'jal')
         save_ra = any(
             isinstance(call.func, (nodes.Name, nodes.Attribute))
             and get_function_name(call.func) in self.data.functions
             for stmt in node.body
             for call in stmt.nodes_of_class(nodes.Call)
+        ) or any(
+            not (
+                isinstance(inner.iter, nodes.Call)
+                and isinstance(inner.iter.func, nodes.Name)
+                and inner.iter.func.name == "range"
+            )
+            for stmt in node.body
+            for inner in stmt.nodes_of_class(nodes.For)
         )
+        node._ndata.saves_ra = save_ra
         has_break = any(True for stmt in node.body for _ in stmt.nodes_of_class(nodes.Break))
         if not (save_ra and has_break):
             break_label = end_label
